@@ -29,6 +29,9 @@ type raceCase struct {
 	Task     string `json:"task"`      // retention | expiredrange | deletesuffix | forced
 	Acquire  int    `json:"acquire"`   // index of the segment the second goroutine acquires (-1: none)
 	AcqFirst bool   `json:"acq_first"` // the second acquisition happens before the housekeeping task starts
+	// Suffix2 >= 0: while the housekeeping task runs (or waits), the lifecycle path deletes the segment with this index by
+	// its suffix (DeleteExpiredSegments takes no retention gate)
+	Suffix2 int `json:"suffix2"`
 }
 
 func runRace(x *verifkit.Ctx, c raceCase) (blocked, flaggedHeld bool, err error) {
@@ -157,6 +160,26 @@ func runRace(x *verifkit.Ctx, c raceCase) (blocked, flaggedHeld bool, err error)
 		acquire()
 		waitMain(40 * time.Millisecond)
 	}
+	// 3b. a deletion by suffix through the lifecycle path while the task is in progress
+	s2Done := make(chan struct{})
+	if c.Suffix2 >= 0 && len(segs) > 0 {
+		target := segs[c.Suffix2%len(segs)]
+		if target != re { // deleting the segment whose reopen is parked would wait for that lock: covered by the task itself
+			deleted[target] = true
+			go func() {
+				defer close(s2Done)
+				_ = e.db.DeleteExpiredSegments([]string{target.suffix})
+			}()
+			select {
+			case <-s2Done:
+			case <-time.After(40 * time.Millisecond):
+			}
+		} else {
+			close(s2Done)
+		}
+	} else {
+		close(s2Done)
+	}
 	// 4. the reopen completes; everybody finishes
 	close(gate.release)
 	a := <-aDone
@@ -165,13 +188,32 @@ func runRace(x *verifkit.Ctx, c raceCase) (blocked, flaggedHeld bool, err error)
 		return blocked, false, fmt.Errorf("the second acquisition did not finish after the reopen completed (started=%v)", mStarted)
 	}
 	if mainRes.err != nil {
-		return blocked, false, fmt.Errorf("second acquisition failed: %v", mainRes.err)
+		if acq == nil || !deleted[acq] {
+			return blocked, false, fmt.Errorf("second acquisition failed: %v", mainRes.err)
+		}
+		// a writer that meets a segment in the middle of its deletion may be refused: then it holds nothing
+		mainRes.seg = nil
 	}
 	mainSeg := mainRes.seg
 	select {
 	case <-bDone:
 	case <-time.After(20 * time.Second):
 		return blocked, false, fmt.Errorf("the housekeeping task %s did not finish after the reopen completed", c.Task)
+	}
+	select {
+	case <-s2Done:
+	case <-time.After(20 * time.Second):
+		return blocked, false, fmt.Errorf("the deletion by suffix did not finish after the reopen completed")
+	}
+	// every segment that no task selected for deletion is still listed (queries and writers find it)
+	listed := map[*segment[*fakeTable, int]]bool{}
+	for _, s := range e.db.segmentController.copySegments() {
+		listed[s] = true
+	}
+	for _, s := range segs {
+		if !deleted[s] && !listed[s] {
+			return blocked, false, fmt.Errorf("segment %s (expired=%v) was selected for deletion by no task (%s, suffix deletion %d) but is no longer listed: its data is unreachable", s, expired(s), c.Task, c.Suffix2)
+		}
 	}
 	if a.err != nil {
 		// the acquisition may legitimately be refused when the segment was flagged first; then nothing is held
@@ -256,15 +298,15 @@ func TestVerifC14Race(t *testing.T) {
 		Rule: "2..4 idle-closed day segments (TTL 3 days, the clock advanced 0..8 days so that none, some or all are expired); goroutine A (a writer) cold-reopens a " +
 			"generated segment and is parked inside the table creator, i.e. under the segment's lock with the reference not yet counted; goroutine B runs a generated " +
 			"housekeeping task (retention run, expired-range probe, deletion by suffix, forced deletion of the oldest) and is left waiting where it needs that lock; " +
-			"the main goroutine acquires a generated other segment before or while B runs; then the reopen is released. Oracle: every holder's segment is open, on " +
-			"disk and has refCount = number of holders; unheld segments have refCount 0; after the release a segment selected for deletion is gone and every other " +
+			"the main goroutine acquires a generated other segment before or while B runs and optionally deletes a generated segment by suffix through the lifecycle path meanwhile; then the reopen is released. Oracle: every holder's segment is open, on " +
+			"disk and has refCount = number of holders; unheld segments have refCount 0; every segment no task selected is still listed; after the release a segment selected for deletion is gone and every other " +
 			"segment is still on disk; non-trivial = the housekeeping task had to wait for the parked reopen, or a held segment was selected for deletion",
 		Gen: func(t *rapid.T, _ *verifkit.KnownSet) raceCase {
 			n := rapid.IntRange(2, 4).Draw(t, "segments")
 			c := raceCase{Days: rapid.SliceOfNDistinct(rapid.IntRange(-6, 0), n, n, rapid.ID[int]).Draw(t, "days"),
 				Advance: rapid.IntRange(0, 8).Draw(t, "advance"), Reopen: rapid.IntRange(0, n-1).Draw(t, "reopen"),
 				Task:    rapid.SampledFrom([]string{"retention", "retention", "expiredrange", "deletesuffix", "forced"}).Draw(t, "task"),
-				Acquire: rapid.IntRange(-1, n-1).Draw(t, "acquire"), AcqFirst: rapid.Bool().Draw(t, "acqfirst")}
+				Acquire: rapid.IntRange(-1, n-1).Draw(t, "acquire"), AcqFirst: rapid.Bool().Draw(t, "acqfirst"), Suffix2: rapid.IntRange(-2, n-1).Draw(t, "suffix2")}
 			return c
 		},
 		Check: func(x *verifkit.Ctx, c raceCase) error {
